@@ -27,4 +27,7 @@ void op_enclen(cfg_t c, uint64_t len);
    Return 0 exact, 1 wrong bytes, <0 error code. */
 int  sweep_dec(stripe_t *s, uint64_t gone, int force, int shuffle_order, int mode, const char *prop);
 int  sweep_rec(stripe_t *s, uint64_t gone, int dest, int mode, const char *prop);
+/* call sequences: every tolerated erasure set followed at once by each of its one-element extensions (and
+   the set again) — state kept between calls (caches keyed by part of the erasure set) must not leak */
+void sweep_neighbours(stripe_t *s, int rec, const char *prop, const char *statkey);
 #endif
